@@ -20,6 +20,21 @@ import core
 sys.path.insert(0, str(Path(__file__).resolve().parent.parent / "translate"))
 import writers as writers_T  # noqa: E402
 
+MODELLED = ['evo/tools/user.py:confirm',
+            'evo/tools/user.py:check_and_confirm_overwrite',
+            'evo/tools/file_interface.py:write_tum_trajectory_file',
+            'evo/tools/file_interface.py:write_kitti_poses_file',
+            'evo/tools/file_interface.py:save_res_file',
+            'evo/tools/pandas_bridge.py:save_df_as_table',
+            'evo/tools/plot.py:PlotCollection.serialize',
+            'evo/tools/plot.py:PlotCollection.export',
+            'evo/main_ape.py:run',
+            'evo/main_rpe.py:run',
+            'evo/main_traj.py:run',
+            'evo/main_res.py:run',
+            'evo/common_ape_rpe.py:plot_result',
+            'evo/main_config.py:main']
+
 RULE = ("cases = fn(writer, pathkind, exists, confirm, answer) for the 6 writer functions (export both as single PDF and as "
         "split figures) — the full product; cli(command, option, exists, no_warnings, answer) for the 21 output options "
         "— the full product in the thorough tier, in the quick tier all options x {declined, accepted, disabled, absent} "
@@ -249,6 +264,9 @@ def gen_cases(ctx):
         chosen = core_cases + fast_rest + r.sample(slow_rest, 12)
     for c in chosen:
         yield c
+    for ex in (0, 1):
+        for nw in (0, 1):
+            yield {"kind": "cli-bag", "exists": ex, "no_warnings": nw}
     mp = [("all", ["n"]), ("all", ["y", "n"]), ("second", ["n"]), ("second", ["y"]), ("all", ["y", "y", "y", "y", "y", "y", "y"]),
           ("last", ["Y"]), ("first", [""]), ("none", ["n"])]
     for cid in multi:
@@ -386,6 +404,45 @@ def judge_multi(ctx, case, files, enabled, answers, prompts, exc, before, after,
             ctx.fail(case, "other-files-untouched", f"{k} was modified")
 
 
+def judge_bag(ctx, case, e):
+    """evo_traj --save_as_bag: the target is a fresh time-stamped name written by rosbags' Writer, which refuses
+    existing paths; there is no evo guard, so only the safety clause is checked (clock frozen to hit an existing name)"""
+    import datetime
+    from evo import main_traj, main_traj_parser
+
+    class FrozenDT(datetime.datetime):
+        @classmethod
+        def now(cls, tz=None):
+            return cls(2026, 1, 2, 3, 4, 5)
+
+    class FrozenModule:
+        datetime = FrozenDT
+    name = "2026-01-02-03-04-05.bag"
+    if case["exists"]:
+        Path(name).write_bytes(SENTINEL)
+    before = e.snapshot()
+    real = main_traj.datetime
+    main_traj.datetime = FrozenModule
+    try:
+        argv = ["tum", "a.txt", "--save_as_bag"] + (["--no_warnings"] if case["no_warnings"] else [])
+        prompts, exc = e.quiet(lambda: main_traj.run(main_traj_parser.parser().parse_args(argv)), ["n"])
+    finally:
+        main_traj.datetime = real
+    after = e.snapshot()
+    if case["exists"]:
+        if after.get(name) != before[name]:
+            ctx.fail(case, "asks-before-overwriting", f"{name} existed and was overwritten by --save_as_bag (prompts: {prompts})")
+        ctx.count("dist", "bag:existing-target-" + ("refused:" + exc.split(":")[0] if exc else "kept"))
+    else:
+        if not after.get(name) or prompts:
+            ctx.fail(case, "absent-target-is-written", f"{name} not written (exception {exc}, prompts {prompts})")
+    for k, v in before.items():
+        if k != name and after.get(k) != v:
+            ctx.fail(case, "other-files-untouched", f"{k} was modified")
+    ctx.count("branch", "bag")
+    ctx.record(case, bool(case["exists"]))
+
+
 def evaluate(ctx, cases):
     e = env()
     # pass 1: run the implementation, collect the driver lines
@@ -431,6 +488,8 @@ def evaluate(ctx, cases):
             else:
                 lines.append(f"C17 cli {mfile} {writer} {case['no_warnings']} {case['exists']} {hexs(case['answer'])}")
             runs.append((case, targets, cmd == "config" or not case["no_warnings"], answers, prompts, exc, before, after))
+        elif kind == "cli-bag":
+            judge_bag(ctx, case, e)
         elif kind == "cli-multi":
             cid = case["option"]
             files = figure_files(e, cid)
@@ -474,6 +533,7 @@ def pre_build():
 
 def check(ctx):
     lean = core.lean_side(ctx.prop, ctx.tier, pre_build=pre_build)
+    core.drift(ctx, MODELLED)
     try:
         cases = list(gen_cases(ctx))
         evaluate(ctx, cases)
@@ -484,7 +544,9 @@ def check(ctx):
         ctx, lean, rule=RULE,
         extra_trusted=["the AST translator harness/translate/writers.py (guard shapes, call-site expressions)",
                        "matplotlib savefig dpi lowered to 12 for speed (same code path)"],
-        open_clauses=["evo_traj --save_as_bag/--save_as_bag2 write to a fresh time-stamped name through rosbags (no evo guard): not covered",
+        open_clauses=["evo_traj --save_as_bag writes a fresh time-stamped name through rosbags' Writer, which refuses an existing path "
+                      "(WriterError, also with --no_warnings): no evo guard, no prompt, never overwritten — only the no-unconfirmed-"
+                      "overwrite clause is checked (clock frozen); --save_as_bag2 cannot be exercised (installed rosbags needs version=)",
                       "PlotCollection.serialize / export are annotated `str`: with a pathlib.Path serialize raises TypeError before "
                       "touching anything and the single-PDF export raises after writing (only the no-unconfirmed-overwrite clause is checked there)",
                       "evo_fig (main_fig.py) is outside the property's anchors; its call sites are listed in Gen/Writers.lean only"],
